@@ -111,7 +111,13 @@ func (s *Setup) CodecCases(e *hx.Env, maxBytes int, valuesPer, mutPer int, malfo
 			if s.Focus[ent.Name] {
 				nvals = valuesPer * 8 // targeted generation for a type whose obligation broke (DESIGN 2.6 (c))
 			}
+			// quick tier: malformed derivations for two of the four presets per type (alternating), the all-empty
+			// value only under the first and last preset (its bytes hardly depend on the limits)
+			mutHere := malformed && (!e.Quick() || s.Focus[ent.Name] || (i+pi)%2 == 0)
 			for k := 0; k < nvals; k++ {
+				if k == 0 && e.Quick() && pi != 0 && pi != len(s.Presets)-1 && !s.Focus[ent.Name] {
+					continue
+				}
 				g := NewGen(e.Rng.Fork(), budget)
 				switch k {
 				case 0:
@@ -127,7 +133,7 @@ func (s *Setup) CodecCases(e *hx.Env, maxBytes int, valuesPer, mutPer int, malfo
 					continue
 				}
 				s.AddCase(e, ent, pi, enc.B, "valid/"+kindName(t), true)
-				if k >= 1 && malformed {
+				if k >= 1 && mutHere {
 					nm := mutPer
 					if k == 1 {
 						nm = mutPer / 2
@@ -137,7 +143,7 @@ func (s *Setup) CodecCases(e *hx.Env, maxBytes int, valuesPer, mutPer int, malfo
 					}
 				}
 			}
-			if !malformed {
+			if !mutHere {
 				continue
 			}
 			// one over-limit value: some limited node gets limit+1 elements
